@@ -101,9 +101,23 @@ func headerOps(li *LockInfo, f *ssa.Function, depth int) map[string]bool {
 				out[k] = true
 			}
 		}
+		// a call through the Responder interface (a helper shared by the implementations): what any implementation's
+		// method of that name does
+		if cc := call.Common(); cc.IsInvoke() && cc.Method.Pkg() != nil && cc.Method.Pkg().Path() == responderPkg && curCtx != nil {
+			for _, nt := range responderImpls(curCtx) {
+				if m := methodFn(curCtx, nt, cc.Method.Name()); m != nil {
+					for k := range headerOps(li, m, depth+1) {
+						out[k] = true
+					}
+				}
+			}
+		}
 	})
 	return out
 }
+
+// curCtx gives helper functions of the responder rules access to the loaded program.
+var curCtx *Ctx
 
 func checkC08(c *Ctx, r *Report) {
 	r.Decided = []string{
@@ -142,6 +156,27 @@ func checkC08(c *Ctx, r *Report) {
 				}
 			}
 		}
+		// names deleted through an element of a package-level table (array or slice, ranged or indexed)
+		eachInstr(f, func(in ssa.Instruction) {
+			call, ok := in.(*ssa.Call)
+			if !ok {
+				return
+			}
+			if n := calleeName(call); n != "(net/http.Header).Del" && n != "(net/textproto.MIMEHeader).Del" {
+				return
+			}
+			a := callArgs(call)
+			if len(a) < 2 {
+				return
+			}
+			if g := tableElementOf(unconv(a[1])); g != nil {
+				if tab, ok := globalStringTable(g); ok {
+					for _, k := range tab {
+						have[k] = true
+					}
+				}
+			}
+		})
 		for _, h := range hopByHopRef {
 			r.Check(have[h], "C08.R1", "hop-by-hop table contains "+h, c.Pos(f.Pos()), "deleted", "hop-by-hop header "+h+" is not removed: it is forwarded in both directions")
 		}
@@ -1246,26 +1281,33 @@ func setHeadersForms(c *Ctx, li *LockInfo, r *Report, rule string) map[string]st
 			}
 			continue
 		}
+		curCtx = c
 		ops := headerOps(li, f, 0)
 		perValueSet := false
-		eachCall(f, func(call ssa.CallInstruction, n string) {
-			isSet := n == "(net/http.Header).Set" || strings.HasSuffix(n, ").SetHeader")
-			if !isSet {
-				return
-			}
-			args := callArgs(call)
-			val := args[len(args)-1]
-			if derivesFrom(val, func(v ssa.Value) bool {
-				ia, ok := v.(*ssa.IndexAddr)
-				if !ok {
-					return false
+		grp := []*ssa.Function{f}
+		if li != nil {
+			grp = pkgGroup(li, f)
+		}
+		for _, gf := range grp {
+			eachCall(gf, func(call ssa.CallInstruction, n string) {
+				isSet := n == "(net/http.Header).Set" || strings.HasSuffix(n, ").SetHeader")
+				if !isSet {
+					return
 				}
-				sl, ok := ia.X.Type().Underlying().(*types.Slice)
-				return ok && types.TypeString(sl.Elem(), nil) == "string"
-			}) {
-				perValueSet = true
-			}
-		})
+				args := callArgs(call)
+				val := args[len(args)-1]
+				if derivesFrom(val, func(v ssa.Value) bool {
+					ia, ok := v.(*ssa.IndexAddr)
+					if !ok {
+						return false
+					}
+					sl, ok := ia.X.Type().Underlying().(*types.Slice)
+					return ok && types.TypeString(sl.Elem(), nil) == "string"
+				}) {
+					perValueSet = true
+				}
+			})
+		}
 		form := "add"
 		if perValueSet {
 			form = "set-per-value"
